@@ -26,7 +26,7 @@ PLAN = plan(70, 1200, ["hostile", "hostile", "hostile_handshake", "hostile_small
 
 FAULTS = ("drop", "dup", "delay", "blackout", "timer-late", "clock", "rebind")
 PROFILES = {
-    "hostile": {"faults": FAULTS, "hostile_rate": 0.15, "gap_flood_p": 0.05, "cid_dance_p": 0.05},
+    "hostile": {"faults": FAULTS, "hostile_rate": 0.15, "gap_flood_p": 0.05, "cid_dance_p": 0.05, "late_retry_p": 0.05},
     "hostile_handshake": {"faults": ("drop", "dup", "delay"), "hostile_rate": 0.5, "t_adv_max": 1.5, "max_ops": 4,
                           "retry_p": 0.3, "allow_vn": True,
                           "retry_token_pads": (0, 0, 0, 300, 1000, 1100, 1150, 1180, 1250, 1300, 1380)},
